@@ -37,6 +37,7 @@ func report(P *Prog, prop, tier string, results []*FuncResult, kf *KnownFile, ve
 	}
 	var viols []viol
 	var knownLines []string
+	var knownElsewhere []string
 	slow := []string{}
 	for _, r := range results {
 		funcs = append(funcs, r.Key)
@@ -90,7 +91,9 @@ func report(P *Prog, prop, tier string, results []*FuncResult, kf *KnownFile, ve
 				if f.Property == prop || f.Property == "" {
 					knownLines = append(knownLines, fmt.Sprintf("KNOWN-FINDING: property=%s %s [%s]", prop, f.What, o.Name))
 				} else {
-					knownLines = append(knownLines, fmt.Sprintf("KNOWN-FINDING: property=%s %s [%s; listed under %s]", prop, f.What, o.Name, f.Property))
+					// the finding is listed (and announced) under its own property; here the
+					// obligation is only a premise shared with that property's proof
+					knownElsewhere = append(knownElsewhere, fmt.Sprintf("%s (listed under %s)", o.Name, f.Property))
 				}
 			case "failed":
 				total++
@@ -152,6 +155,7 @@ func report(P *Prog, prop, tier string, results []*FuncResult, kf *KnownFile, ve
 		"vacuity_covers":            covers,
 		"known_finding_obligations": known,
 		"known_findings":            knownLines,
+		"premises_failing_as_known_findings_of_other_properties": knownElsewhere,
 		"assumed_contracts":         keysOf(assumedContracts),
 		"assumed_unreachable_panics": keysOf(assumedPanics),
 		"inlined_callees":           keysOf(inlined),
